@@ -781,7 +781,14 @@ class Core:
         is_self_attr = lambda e, a: isinstance(e, ast.Attribute) and e.attr == a and isinstance(e.value, ast.Name) and e.value.id == msn
         # 3. validity flag from the consumer's guard
         flag = None
-        for c in self._conjuncts(loop.test):
+        guard_conds = list(self._conjuncts(loop.test))
+        for s0 in loop.body:
+            if s0 is s_next:
+                break
+            # a leading `if not <guard>: break|return|raise` is part of the loop guard
+            if isinstance(s0, ast.If) and not s0.orelse and leaves_only(s0.body) and isinstance(s0.test, ast.UnaryOp) and isinstance(s0.test.op, ast.Not):
+                guard_conds += self._conjuncts(s0.test.operand)
+        for c in guard_conds:
             if isinstance(c, ast.Call) and isinstance(c.func, ast.Attribute) and not c.args and ast.unparse(c.func.value) == ast.unparse(x):
                 g = t.lookup(c.func.attr)
                 if g is not None:
@@ -813,10 +820,22 @@ class Core:
                 if m2 is not None and any(isinstance(k, ast.Assign) and any(isinstance(tg, ast.Attribute) and tg.attr == ev for tg in k.targets)
                                           for k in own_nodes(m2.node)):
                     ev_assigns.append(n)
+        # helpers `def H(self): if <c>: self.<ev> = T; return True ... return False` -- true exactly when the terminal was set
+        helpers = {}            # method name -> terminal value
+        for n in own_nodes(M.node):
+            if isinstance(n, ast.Call) and isinstance(n.func, ast.Attribute) and isinstance(n.func.value, ast.Name) and n.func.value.id == msn:
+                H = t.lookup(n.func.attr)
+                if H is not None and H is not M and n.func.attr not in helpers:
+                    tv_ = self._terminal_predicate(H, ev)
+                    if tv_ is not None:
+                        helpers[n.func.attr] = tv_
+                        const_assigns.setdefault(tv_, [])
         if not const_assigns:
             return Cert(None, why="%s never assigns a constant terminal event to self.%s" % (M.qualname, ev))
+        self._k2_helpers = helpers
         cfg = CFG(M.node)
         whys = {}
+        per_terminal = {}
         for terminal in sorted(const_assigns):
             r = self._event_consumer_for(f, loop, s_next, var, call, x, t, M, msn, ev, flag, terminal, const_assigns[terminal], ev_assigns, cfg)
             if r:
@@ -824,16 +843,103 @@ class Core:
             if r.unresolved:
                 return r
             whys.setdefault(getattr(r, "stage", 1), (r.why, getattr(r, "definite", None)))
+            per_terminal[terminal] = getattr(r, "definite", None)
         # prefer the explanation of a candidate whose stepper side was fine (the consumer is what is broken).
         # With several candidate terminal constants a failure is definite only if it is definite for the
         # candidate the consumer actually leaves on -- approximated by: stage 2, or a single candidate.
         pick = whys.get(2) or whys.get(1) or ("", None)
         c = Cert(None, why=pick[0])
-        c.definite = pick[1] if (2 in whys or len(const_assigns) == 1 or self._consumer_leaves_on(loop, var, const_assigns, f)) else None
+        # a stage-1 failure (stepper) is definite only when it was found for the constant the consumer leaves on
+        leaves = self._consumer_leaves_on(loop, var, const_assigns, f)
+        c.definite = None
+        if 2 in whys:
+            c.definite = whys[2][1]
+        elif len(leaves) == 1 and per_terminal.get(next(iter(leaves))):
+            c.definite = per_terminal[next(iter(leaves))]
         return c
 
+    def _terminal_predicate(self, H: Func, ev):
+        """H returns only the constants True/False, assigns self.<ev> = <const T> immediately before every `return True`
+        (same block) and nowhere else -> T, else None"""
+        sn = self.cg.self_name(H)
+        if sn is None:
+            return None
+        rets = [n for n in own_nodes(H.node) if isinstance(n, ast.Return)]
+        if not rets or not leaves_only(H.node.body):
+            return None
+        term = None
+        marked = set()
+        for r in rets:
+            if not (isinstance(r.value, ast.Constant) and r.value.value in (True, False)):
+                return None
+            if r.value.value is True:
+                p = parent(r)
+                blk = None
+                for fld in ("body", "orelse", "finalbody"):
+                    lst = getattr(p, fld, None)
+                    if isinstance(lst, list) and any(y is r for y in lst):
+                        blk = lst
+                if blk is None:
+                    return None
+                found = None
+                for st in blk:
+                    if st is r:
+                        break
+                    if isinstance(st, ast.Assign) and len(st.targets) == 1 and isinstance(st.targets[0], ast.Attribute) and st.targets[0].attr == ev \
+                            and isinstance(st.targets[0].value, ast.Name) and st.targets[0].value.id == sn:
+                        v = self.b.fold(st.value, H)
+                        if isinstance(v, int) and not isinstance(v, bool):
+                            found = (int(v), st)
+                if found is None:
+                    return None
+                if term is not None and term != found[0]:
+                    return None
+                term = found[0]
+                marked.add(id(found[1]))
+        # no other assignment of the event, no calls to own methods that could set it
+        for n in own_nodes(H.node):
+            if isinstance(n, (ast.Assign, ast.AugAssign)):
+                for tg in (n.targets if isinstance(n, ast.Assign) else [n.target]):
+                    for x in ast.walk(tg):
+                        if isinstance(x, ast.Attribute) and x.attr == ev and id(n) not in marked:
+                            return None
+            if isinstance(n, ast.Call) and isinstance(n.func, ast.Attribute) and isinstance(n.func.value, ast.Name) and n.func.value.id == sn:
+                return None
+        return term
+
+    def _path_may_set(self, run, cls, sn, attrs):
+        """some statement the run went through calls a method of the same object that (transitively, depth 2)
+        assigns one of `attrs` -- the event / flag may change behind a call"""
+        def assigns(m, depth):
+            for n in own_nodes(m.node):
+                if isinstance(n, (ast.Assign, ast.AugAssign)):
+                    for tg in (n.targets if isinstance(n, ast.Assign) else [n.target]):
+                        for x in ast.walk(tg):
+                            if isinstance(x, ast.Attribute) and x.attr in attrs:
+                                return True
+                if depth < 2 and isinstance(n, ast.Call) and isinstance(n.func, ast.Attribute) and isinstance(n.func.value, ast.Name) \
+                        and n.func.value.id == self.cg.self_name(m):
+                    m2 = cls.lookup(n.func.attr)
+                    if m2 is not None and m2 is not m and assigns(m2, depth + 1):
+                        return True
+            return False
+        seen = set()
+        for st in run.executed:
+            if id(st) in seen:
+                continue
+            seen.add(id(st))
+            # only the statement's own expressions (nested statements are in `executed` themselves if they ran)
+            exprs = [x for x in ast.iter_child_nodes(st) if isinstance(x, ast.expr)]
+            for e in exprs:
+                for n in ast.walk(e):
+                    if isinstance(n, ast.Call) and isinstance(n.func, ast.Attribute) and isinstance(n.func.value, ast.Name) and n.func.value.id == sn:
+                        m2 = cls.lookup(n.func.attr)
+                        if m2 is not None and assigns(m2, 0):
+                            return True
+        return False
+
     def _consumer_leaves_on(self, loop, var, const_assigns, f):
-        """the consumer compares the event with exactly one of the candidate constants in a leaving `if`"""
+        """constants the consumer compares the event with in an `if` that leaves the loop"""
         hits = set()
         for n in own_nodes(loop):
             if isinstance(n, ast.If) and (leaves_only(n.body) or any(isinstance(x, (ast.Break, ast.Raise, ast.Return)) for x in n.body)):
@@ -842,9 +948,16 @@ class Core:
                         for a, b in ((cmp_.left, cmp_.comparators[0]), (cmp_.comparators[0], cmp_.left)):
                             if isinstance(a, ast.Name) and a.id == var:
                                 v = self.b.fold(b, f)
-                                if isinstance(v, int) and int(v) in const_assigns:
+                                if isinstance(v, int):
                                     hits.add(int(v))
-        return len(hits) >= 1
+                                elif isinstance(v, (tuple, list, set)):
+                                    hits |= {int(x) for x in v if isinstance(x, int)}
+                    if isinstance(cmp_, ast.Compare) and len(cmp_.ops) == 1 and isinstance(cmp_.ops[0], ast.In) \
+                            and isinstance(cmp_.left, ast.Name) and cmp_.left.id == var:
+                        v = self.b.fold(cmp_.comparators[0], f)
+                        if isinstance(v, (tuple, list, set)):
+                            hits |= {int(x) for x in v if isinstance(x, int)}
+        return hits
 
     def _event_consumer_for(self, f, loop, s_next, var, call, x, t, M, msn, ev, flag, terminal, term_assigns, ev_assigns, cfg):
         sa = self.sa
@@ -864,6 +977,20 @@ class Core:
                             cut.add(id(s2))
                         if isinstance(s2, (ast.Assign, ast.AugAssign)) or not (isinstance(s2, ast.Return) or self._is_logging(s2)):
                             break
+        # `if self.H(): <branch>` with H true exactly when it set this terminal: the branch is a terminal path
+        for n in own_nodes(M.node):
+            if isinstance(n, ast.If):
+                tst, neg = n.test, False
+                if isinstance(tst, ast.UnaryOp) and isinstance(tst.op, ast.Not):
+                    tst, neg = tst.operand, True
+                if isinstance(tst, ast.Call) and isinstance(tst.func, ast.Attribute) and isinstance(tst.func.value, ast.Name) \
+                        and tst.func.value.id == msn and getattr(self, "_k2_helpers", {}).get(tst.func.attr) == terminal and not tst.args:
+                    branch = n.orelse if neg else n.body
+                    if branch:
+                        cut.add(id(branch[0]))
+                        term_assigns = list(term_assigns) + [branch[0]]
+        if not term_assigns:
+            return Cert(None, why="%s never reaches a statement that sets the terminal event %d" % (M.qualname, terminal))
         for a in term_assigns:
             cut.add(id(a))
             for bnode in ev_assigns:
@@ -898,7 +1025,7 @@ class Core:
                     r2.oracle = oracle
                     o2 = r2.block(M.node.body, SState())
                     e2 = s_join(o2.fall, o2.ret)
-                    if e2 is not None and not r2.loose:
+                    if e2 is not None and not r2.loose and not self._path_may_set(r2, t, msn, (ev, flag)):
                         keys = [k for k in e2.keys() if k.startswith(msn + ".")]
                         if all(e2.p(k)[0] > -INF and e2.p(k)[0] <= 0 for k in keys):
                             c.definite = "%s returns on path %s without consuming input (%s), without the terminal event %d and with `%s` still true" % (
@@ -1311,7 +1438,9 @@ def _check_range(core, sink, f, node, it, lab, k1, undecided, witness):
         undecided.append((inst, "a call that may consume the stream could not be resolved: %s" % "; ".join(_u(u, 60) for u in cert.unresolved[:3])))
         return
     prov = core.count_is_input(f, it)
-    w = witness() if prov else None
+    # policy (a): only a loop that itself works on the input stream can be reported; a loop that merely counts up to a
+    # number read earlier may have had that number validated elsewhere in a way the `validated` class does not recognise
+    w = witness() if (prov and cert.why != "the body reads no stream") else None
     if prov and w:
         sink.check("for/input-counted", inst, False, f, lab,
                    "trip count is read from the input (%s; %s) and an iteration can complete without consuming a checked byte: %s  [%s]"
